@@ -163,10 +163,17 @@ def searchBwd (lin : Bool) (es : List (Edge α)) (c : Nat) (dist : α) : Nat :=
   if lin then bwdLin es dist c
   else partPt (ltPred es dist) (c + 1) 0 c
 
+/-- the `dist == 0.0` branch of `move_cursor` (as repaired by /repo commit 72673fa5):
+`cursor = 1; while cursor + 1 < edges.len() && edges[cursor].distance == 0.0 { cursor += 1 }` —
+rest on the first entry of non-zero length.  Fuel `edges.len()` suffices. -/
+def zeroScan (es : List (Edge α)) : Nat → Nat → Nat
+  | 0, c => c
+  | fuel+1, c => if c + 1 < es.length ∧ (dAt es c == zero) = true then zeroScan es fuel (c + 1) else c
+
 /-- `move_cursor`, with the two branch selections (`linF`: forward scan is linear, `linB`:
 backward scan is linear) as parameters -/
 def moveCursorWith (linF linB : Bool) (es : List (Edge α)) (c : Nat) (dist : α) : Nat :=
-  if dist == zero then 1
+  if dist == zero then zeroScan es es.length 1
   else if inBounds es c dist then c
   else if dAt es c < dist then searchFwd linF es c dist
   else searchBwd linB es c dist
